@@ -34,7 +34,8 @@ let run_a (live : bool) (ops : string list) : string =
   let maxc = ref 0 in
   let obs = ref [] in
   let srcs : (int, sentry list) Hashtbl.t = Hashtbl.create 4 in
-  let prepared : (int * int, unit) Hashtbl.t = Hashtbl.create 4 in
+  (* the remote backup directory is keyed by (term, index) only: what a snapshot apply finds there is what was copied last *)
+  let prepared : (string * string, journal) Hashtbl.t = Hashtbl.create 4 in
   let push s = obs := s :: !obs in
   let observe r =
     push (Printf.sprintf "%s;%s;%d;%s" (res_str r) (synced_str !nd.n_cur.r_synced) (List.length !nd.n_cur.r_journal)
@@ -68,9 +69,9 @@ let run_a (live : bool) (ops : string list) : string =
       let ci = int_of_string c and ki = int_of_string k in
       if ci > !maxc then maxc := ci;
       let e = kth ci ki in
-      if f = "-" then Hashtbl.replace prepared (ci, ki) ();
-      let content = if Hashtbl.mem prepared (ci, ki)
-        then Some (List.map (fun x -> (x.s_cluster, x.s_payload)) (src_prefix ci ki)) else None in
+      let key = (dec_of_n e.s_term, dec_of_n e.s_index) in
+      if f = "-" then Hashtbl.replace prepared key (List.map (fun x -> (x.s_cluster, x.s_payload)) (src_prefix ci ki));
+      let content = Hashtbl.find_opt prepared key in
       do_op (OSnapReq (n_of_dec c, e.s_term, e.s_index, content))
     | ["K"; c; k] ->
       let ci = int_of_string c in
